@@ -34,7 +34,7 @@ FLOORS = {"quick": {"demux_packets": 8000, "fib_empty_table_cases": 150, "defaul
                        "hub_with_ports": 4000, "hub_without_ports": 4000, "splitter_packets": 16000, "fattree_built": 6000,
                        "fib_walks": 160000, "reverse_walks": 40000, "e2e_packets": 160000, "e2e_hops": 1000000,
                        "e2e_shared_class_runs": 2000, "e2e_SP": 600, "e2e_WFQ": 600, "e2e_DRR": 600, "e2e_VirtualClock": 600}}
-KEYS = tuple(FLOORS["quick"].keys()) + ("demux_reconfigurations", "splitter_rewriting_receivers", "fattree_twin_trees")
+KEYS = tuple(FLOORS["quick"].keys()) + ("demux_reconfigurations", "splitter_rewriting_receivers", "fattree_twin_trees", "fib_tables_with_default_route", "hub_synchronous_answers")
 
 
 def plan(tier):
@@ -60,6 +60,14 @@ class Dev:
 def mkpkt(flow, src="s", pid=0, size=100):
     from onl.packet import Packet
     return Packet(0.0, size, pid, src=src, flow_id=flow, payload=("pl", pid))
+
+
+class DefaultRoute(dict):
+    """a forwarding table with a default route: table[f] answers for every flow"""
+    port = 0
+
+    def __missing__(self, f):
+        return self.port
 
 
 # ---------------------------------------------------------------------------
@@ -99,6 +107,12 @@ def demux_case(rng, stats, bad):
         for f in rng.sample(range(8), rng.randint(1, 6)):
             fib[f] = rng.randrange(0, n + 2)          # may be out of range
     tbl = dict(fib)
+    if fib and rng.random() < 0.2:
+        # a table that answers table[f] for flows it does not list (a default route): "the output its forwarding
+        # table names" is whatever table[f] yields
+        tbl = DefaultRoute(fib)
+        tbl.port = rng.randrange(0, n + 1)
+        stats["fib_tables_with_default_route"] += 1
     d = FIBDemux(outs=outs, ends=dict(ends) if (ends or rng.random() < 0.5) else None, fib=tbl, default_out=default)
     ends = d.ends                      # the live, public map (reconfigured in place below)
     phases = rng.randint(1, 3)
@@ -142,15 +156,19 @@ def demux_case(rng, stats, bad):
                     {"flow": f, "fib": fib, "ends": sorted(ends), "exc": repr(e)[:100]})
                 return nt
             stats["demux_packets"] += 1
+            try:
+                named = fib[f]
+            except KeyError:
+                named = None
             if f in ends:
                 want = ends[f]
                 stats["ends_used"] += 1
-            elif f in fib and fib[f] < n:
-                want = outs[fib[f]]
+            elif named is not None and named < n:
+                want = outs[named]
             else:
                 want = default
                 nt = True
-                if f in fib:
+                if named is not None:
                     stats["out_of_range_port"] += 1
                 stats["default_out_used" if default else "nowhere"] += 1
             holders = [o for o in devs if len(o.got) > before[id(o)]]
@@ -235,6 +253,12 @@ def hub_case(rng, stats, bad):
     n = rng.randint(1, 6)
     eps = [Dev(f"h{i}") for i in range(n)]
     with_ports = rng.random() < 0.5
+    sent = []
+    if not with_ports and rng.random() < 0.4:
+        # endpoints that answer at once, from inside their own put() (as TCPSink does with its ACK): the reply enters the
+        # hub while the hub is still repeating the packet that caused it
+        for k in rng.sample(range(n), rng.randint(1, min(2, n))):
+            eps[k] = Responder(f"h{k}", sent, stats)
     ports = []
     if with_ports:
         ports = [Wire(env, lambda: 0.5) if rng.random() < 0.7 else None for _ in range(n)]
@@ -250,7 +274,6 @@ def hub_case(rng, stats, bad):
         if e.out is not hub:
             bad("hub-endpoint-not-attached", "an endpoint's out is not the hub", e.element_id)
             return False
-    sent = []
     for i in range(rng.randint(1, 6)):
         src = rng.choice(eps + [Dev("stranger")])
         p = mkpkt(1, src=src.element_id, pid=i)
@@ -272,6 +295,24 @@ def hub_case(rng, stats, bad):
                 bad("hub-bypassed-port-device", "a Hub did not send through the endpoint's port device", e.element_id)
                 return False
     return n >= 3
+
+
+class Responder(Dev):
+    """an endpoint that answers every packet that is not itself an answer with a packet of its own, synchronously"""
+
+    def __init__(self, name, sent, stats):
+        Dev.__init__(self, name)
+        self.sent, self.stats, self.n = sent, stats, 0
+
+    def put(self, p):
+        self.got.append(p)
+        if p.payload and p.payload[0] == "pl" and self.out is not None and self.n < 8:
+            self.n += 1
+            r = mkpkt(2, src=self.element_id, pid=1000 + self.n)
+            r.payload = ("answer", self.n)
+            self.sent.append((r, self.element_id))
+            self.stats["hub_synchronous_answers"] += 1
+            self.out.put(r)
 
 
 class Rewriter(Dev):
